@@ -14,8 +14,10 @@ import (
 	"io/ioutil"
 	"math"
 	"os"
+	"runtime"
 	"strconv"
 	"strings"
+	"sync"
 	"testing"
 	"time"
 
@@ -47,6 +49,7 @@ type vf07Store struct {
 	skew           int64
 	vault          map[int]*vf07Rec
 	pwOf           map[string]int
+	hint           int
 }
 
 func vf07NewStore() *vf07Store {
@@ -117,12 +120,20 @@ func (s *vf07Store) sync() {
 	}
 }
 
+// pwID identifies which password a stored Argon2 hash matches (9: none of ours). The password of
+// the login that has just run is tried first; results are remembered per hash string.
 func (s *vf07Store) pwID(hash string) int {
 	if id, ok := s.pwOf[hash]; ok {
 		return id
 	}
 	id := 9
+	order := []int{s.hint}
 	for k := 0; k <= 5; k++ {
+		if k != s.hint {
+			order = append(order, k)
+		}
+	}
+	for _, k := range order {
 		if authutil.Argon2CompareHashAndPassword(hash, []byte(vf07Password(k))) == nil {
 			id = k
 			break
@@ -198,25 +209,25 @@ func (v *vf07IO) emit(format string, args ...interface{}) {
 	v.out.Flush()
 }
 
-// TestVerifC07 — op language and output format: see lean/KM/Driver/C07.lean.
-func TestVerifC07(t *testing.T) {
-	vio := vf07Open(t)
-	defer func() { vio.out.Flush(); vio.f.Close() }()
+// vf07Worker interprets the op lines of whole sequences with its own servers, store and
+// authenticator; out[i] answers lines[i].
+func vf07Worker(t *testing.T, lines []string) (out []string) {
+	out = make([]string, len(lines))
+	for i := range out {
+		out[i] = "not-run"
+	}
 	cluster, err := vfldapsrv.Start(2)
 	if err != nil {
-		t.Fatal(err)
+		t.Error(err)
+		return
 	}
 	var store *vf07Store
 	var authn *PasswordAuthenticator
 	atoi := func(s string) (int, bool) { n, err := strconv.Atoi(s); return n, err == nil }
-	for _, line := range vio.ops {
+	for li, line := range lines {
 		f := strings.Fields(line)
-		if len(f) == 0 {
-			vio.emit("bad-op")
-			continue
-		}
-		if f[0] != "seq" && store == nil {
-			vio.emit("bad-op")
+		if len(f) == 0 || (f[0] != "seq" && store == nil) {
+			out[li] = "bad-op"
 			continue
 		}
 		bad := false
@@ -230,7 +241,8 @@ func TestVerifC07(t *testing.T) {
 			store = vf07NewStore()
 			authn, err = New(cluster.URLs(), []string{vfldapsrv.BindPattern}, 1, cluster.RootCAs, store, nil)
 			if err != nil {
-				t.Fatal(err)
+				t.Error(err)
+				return
 			}
 		case f[0] == "login" && len(f) == 4:
 			u, ok1 := atoi(f[1])
@@ -240,6 +252,7 @@ func TestVerifC07(t *testing.T) {
 				break
 			}
 			cluster.TakeTrace()
+			store.hint = pw
 			valid, err := authn.PasswordAuthenticate(vf07Names[u], []byte(vf07Password(pw)))
 			trace = cluster.TakeTrace()
 			switch {
@@ -312,8 +325,10 @@ func TestVerifC07(t *testing.T) {
 				}
 				hash, err := authutil.Argon2MakeNewHash([]byte(vf07Password(pw)))
 				if err != nil {
-					t.Fatal(err)
+					t.Error(err)
+					return
 				}
+				store.pwOf[hash] = pw
 				exp := store.now() + int64(h)*3600
 				r := &vf07Rec{subject: name, hash: hash, signedExp: exp, typ: passwordDataType, sigOK: false, columnExp: exp}
 				if f[3] == "other" {
@@ -346,9 +361,72 @@ func TestVerifC07(t *testing.T) {
 			bad = true
 		}
 		if bad {
-			vio.emit("bad-op")
+			out[li] = "bad-op"
 			continue
 		}
-		vio.emit("%s %s %s", res, trace, store.rows())
+		out[li] = fmt.Sprintf("%s %s %s", res, trace, store.rows())
+	}
+	return out
+}
+
+// vf07Split cuts the op lines into at most n runs of whole sequences (a sequence starts at `seq`).
+func vf07Split(lines []string, n int) [][2]int {
+	var starts []int
+	for i, l := range lines {
+		if i == 0 || strings.HasPrefix(l, "seq ") {
+			starts = append(starts, i)
+		}
+	}
+	if n > len(starts) {
+		n = len(starts)
+	}
+	var parts [][2]int
+	for k := 0; k < n; k++ {
+		a := starts[k*len(starts)/n]
+		b := len(lines)
+		if k+1 < n {
+			b = starts[(k+1)*len(starts)/n]
+		}
+		parts = append(parts, [2]int{a, b})
+	}
+	return parts
+}
+
+// TestVerifC07 — op language and output format: see lean/KM/Driver/C07.lean. Sequences are
+// independent, so they are spread over a few workers (Argon2 dominates the run time).
+func TestVerifC07(t *testing.T) {
+	vio := vf07Open(t)
+	defer func() { vio.out.Flush(); vio.f.Close() }()
+	workers := runtime.NumCPU() / 2
+	if workers < 1 {
+		workers = 1
+	}
+	if workers > 8 {
+		workers = 8
+	}
+	parts := vf07Split(vio.ops, workers)
+	outs := make([][]string, len(parts))
+	var wg sync.WaitGroup
+	for k, p := range parts {
+		wg.Add(1)
+		go func(k int, a, b int) {
+			defer wg.Done()
+			defer func() {
+				if r := recover(); r != nil {
+					t.Errorf("worker %d panicked: %v", k, r)
+				}
+			}()
+			outs[k] = vf07Worker(t, vio.ops[a:b])
+		}(k, p[0], p[1])
+	}
+	wg.Wait()
+	for k, p := range parts {
+		for i := 0; i < p[1]-p[0]; i++ {
+			if outs[k] == nil || i >= len(outs[k]) {
+				vio.emit("not-run")
+			} else {
+				vio.emit("%s", outs[k][i])
+			}
+		}
 	}
 }
